@@ -97,6 +97,9 @@ func (p *Peer) CrashForVerif() error {
 	return p.mlist.Shutdown()
 }
 
+// ShutdownForVerif stops the memberlist of an instance that has already called Leave (the process exiting).
+func (p *Peer) ShutdownForVerif() error { return p.mlist.Shutdown() }
+
 // PeerStatusesForVerif dumps the alive/failed bookkeeping (Peer.peers), keyed as the code keys it.
 func (p *Peer) PeerStatusesForVerif() map[string]string {
 	p.peerLock.RLock()
